@@ -50,6 +50,7 @@ type Step struct {
 	N      int    `json:"n,omitempty"`
 	Strong bool   `json:"strong,omitempty"`
 	Lazy   bool   `json:"lazy,omitempty"` // restore: the closed watches are not released by their owners until later
+	Twice  bool   `json:"twice,omitempty"` // wclose: the owner calls Close a second time (Close is idempotent: a deferred Close after an explicit one)
 	// par: the operations of Par run concurrently against the store; Sched decides, at every yield point
 	// (start, waiting for the event lock, committed-but-not-yet-published), which of them goes on
 	Par   []Step `json:"par,omitempty"`
@@ -140,7 +141,7 @@ func (World) Generate(rng *rand.Rand, tier string, runIdx uint64) simkit.Plan {
 		case 6:
 			p.Steps = append(p.Steps, Step{Op: "wnext", W: rng.IntN(nwatch)})
 		case 7:
-			p.Steps = append(p.Steps, Step{Op: "wclose", W: rng.IntN(nwatch)})
+			p.Steps = append(p.Steps, Step{Op: "wclose", W: rng.IntN(nwatch), Twice: simkit.Chance(rng, 35)})
 		case 8:
 			p.Steps = append(p.Steps, Step{Op: "drain", N: 1 + rng.IntN(3)})
 		case 9:
@@ -607,6 +608,10 @@ func (World) execute(p *Plan, r *simkit.Run) *simkit.Violation {
 			}
 			if w := watchers[s.W]; w != nil && w.w != nil {
 				w.w.Close()
+				if s.Twice {
+					w.w.Close()
+					r.Hit("probe.watch-closed-twice")
+				}
 				synctest.Wait()
 				if w.pending != nil {
 					select {
